@@ -1391,7 +1391,6 @@ func (c *oblCtx) intRange(e ast.Expr) (lo, hi int, ok bool) {
 	return 0, 0, false
 }
 
-
 // groupParamIndex (I9): `m[g]` where m is the non-empty FindStringSubmatch of a regexp the function receives as a
 // parameter and g an integer parameter: safe when every call site of the function passes a package-level regexp with
 // a constant pattern and a constant group number that the pattern has. The function must not be used as a value.
